@@ -150,3 +150,11 @@ def r3(cx):
                 if len(p) <= 3:
                     break
         cx.violation(path[0] if path else k, "query-path-reaches-mutator:%s" % named_parent(k).rsplit("::", 1)[1], "a query interface reaches %s: %s" % (what, " -> ".join(named_parent(x) for x in (path or [k]))), [])
+
+
+@rule("C11", "R4", "a read does not change what later queries see through the shared session: the only session state a query writes is the `metrics` table binding, and the bookkeeping that "
+      "lets a later query skip re-registration always names the set actually bound (the registration rules C10.R2 / C10.R5, evaluated for this property) - otherwise a SELECT that "
+      "selects no chunk leaves an empty table behind that a later query of an earlier chunk set is answered from")
+def r4(cx):
+    from rules.C04 import _include
+    _include(cx, "C10", ["r2", "r5"], "session binding")
